@@ -23,6 +23,7 @@ import (
 	"sync"
 	"sync/atomic"
 	"time"
+	"verif/gen/VI"
 
 	"github.com/TarsCloud/TarsGo/tars"
 	"github.com/TarsCloud/TarsGo/tars/util/rogger"
@@ -84,7 +85,7 @@ func encodeArgs(v int16, token string, x int32) []byte {
 
 // argsFor builds the argument buffer of the request's function.
 func argsFor(s reqSpec) []byte {
-	if s.Func != "nothing" {
+	if s.Func != "nothing" && s.Func != "onlyOut" {
 		return encodeArgs(s.Version, s.Token, s.X)
 	}
 	switch s.Version {
@@ -94,6 +95,72 @@ func argsFor(s reqSpec) []byte {
 		return []byte("{}")
 	}
 	return nil
+}
+
+// decodeOnlyOut extracts the out parameters a (int) and b (string) of onlyOut(out int a, out string b, out Pair c).
+func decodeOnlyOut(v int16, buf []byte) (int64, string, error) {
+	switch v {
+	case 3:
+		nodes, err := rc.ParseFields(buf)
+		if err != nil || len(nodes) == 0 || nodes[0].Type != rc.TMap {
+			return 0, "", fmt.Errorf("TUP result is not an attribute map: %v", err)
+		}
+		var a int64
+		var b string
+		seen := 0
+		for i, k := range nodes[0].Keys {
+			inner, err := rc.ParseFields(nodes[0].Vals[i].Bytes)
+			if err != nil || len(inner) != 1 {
+				return 0, "", fmt.Errorf("TUP attribute %q does not hold exactly one field (%d, %v)", k.Bytes, len(inner), err)
+			}
+			switch string(k.Bytes) {
+			case "a":
+				a = inner[0].Int
+				seen |= 1
+			case "b":
+				if inner[0].Type != rc.TString1 && inner[0].Type != rc.TString4 {
+					return 0, "", fmt.Errorf("TUP attribute b holds wire type %s", rc.TypeName(inner[0].Type))
+				}
+				b = string(inner[0].Bytes)
+				seen |= 2
+			case "c":
+				if inner[0].Type != rc.TStructBegin {
+					return 0, "", fmt.Errorf("TUP attribute c holds wire type %s", rc.TypeName(inner[0].Type))
+				}
+				seen |= 4
+			}
+		}
+		if seen != 7 {
+			return 0, "", fmt.Errorf("TUP result lacks one of a/b/c")
+		}
+		return a, b, nil
+	case 5:
+		var m map[string]interface{}
+		d := json.NewDecoder(bytesReader(buf))
+		d.UseNumber()
+		if err := d.Decode(&m); err != nil {
+			return 0, "", err
+		}
+		n, _ := m["a"].(json.Number)
+		a, _ := n.Int64()
+		b, _ := m["b"].(string)
+		return a, b, nil
+	}
+	nodes, err := rc.ParseFields(buf)
+	if err != nil {
+		return 0, "", err
+	}
+	var a int64
+	var b string
+	for _, n := range nodes {
+		if n.Tag == 1 {
+			a = n.Int
+		}
+		if n.Tag == 2 {
+			b = string(n.Bytes)
+		}
+	}
+	return a, b, nil
 }
 
 // decodeResult extracts (ret, tokenOut) from a response buffer per version.
@@ -381,6 +448,14 @@ func judge(cfg srvCfg, w *vworld.World, cl *client, s reqSpec, wit func(map[stri
 		if s.Func == "nothing" {
 			break // a void function without parameters returns nothing to compare
 		}
+		if s.Func == "onlyOut" {
+			a, b, err := decodeOnlyOut(s.Version, r.Buffer)
+			if err != nil || a != int64(s.X) || b != s.TokenOut {
+				run.Violation("result-changed", locus+":onlyOut", fmt.Sprintf("out parameters of request id %d: a=%d b=%q err=%v, the implementation produced a=%d b=%q", s.ID, a, b, err, s.X, s.TokenOut), wit(map[string]interface{}{"request": s}))
+				return false
+			}
+			break
+		}
 		ret, tok, err := decodeResult(s.Version, r.Buffer)
 		if err != nil || ret != s.Ret || tok != s.TokenOut {
 			run.Violation("result-changed", locus, fmt.Sprintf("result of request id %d: ret=%d tokenOut=%q err=%v, the implementation produced ret=%d tokenOut=%q", s.ID, ret, tok, err, s.Ret, s.TokenOut), wit(map[string]interface{}{"request": s}))
@@ -487,6 +562,9 @@ func runConfig(cfg srvCfg, ci int) {
 		if (s.Kind == "ok" || s.Kind == "tars-error" || s.Kind == "plain-error") && i%4 == 3 {
 			s.Func = "nothing" // void, no parameters: the dispatcher has separate call emitters for void functions
 		}
+		if s.Kind == "ok" && i%8 == 5 {
+			s.Func = "onlyOut" // void with three out parameters (int, string, struct): each must come back under its own name / tag
+		}
 		if i == 0 {
 			s.ID = 1
 		}
@@ -496,6 +574,9 @@ func runConfig(cfg srvCfg, ci int) {
 		d := &vworld.Directive{Ret: s.Ret, Outs: []interface{}{s.TokenOut}}
 		if s.Func == "nothing" {
 			d = &vworld.Directive{}
+		}
+		if s.Func == "onlyOut" {
+			d = &vworld.Directive{Outs: []interface{}{int32(s.X), s.TokenOut, VI.Pair{K: "key-" + s.Token, V: int64(s.X) * 3}}}
 		}
 		switch s.Kind {
 		case "tars-error":
@@ -708,7 +789,7 @@ func runConfig(cfg srvCfg, ci int) {
 func main() {
 	run = vlib.Start("C10")
 	rogger.SetLevel(rogger.OFF)
-	run.SetRule("server configurations {tcp,udp} x pool {0,1,4} x handle timeout {0,250 ms}; per configuration a pipelined burst over 1/3/10 connections of requests drawn from versions {TARS,TUP,JSON} x {two-way, one-way} x kinds {success with result values, tars.Error, plain error, tars_ping, unknown function} x functions {outFirst (out before in, result), nothing (void, no parameters)} x ids (sequential, negative, 1, MaxInt32) x request timeouts {0,3 s,60 s}; with pool 1: three requests (one per version) whose 50 ms timeout elapses behind a gated handler; with a handle timeout: gated over-long handlers per version and one-way. A case is one request; distinct = distinct (configuration, version, kind, one-way).")
+	run.SetRule("server configurations {tcp,udp} x pool {0,1,4} x handle timeout {0,250 ms}; per configuration a pipelined burst over 1/3/10 connections of requests drawn from versions {TARS,TUP,JSON} x {two-way, one-way} x kinds {success with result values, tars.Error, plain error, tars_ping, unknown function} x functions {outFirst (out before in, result), nothing (void, no parameters), onlyOut (void, three out parameters)} x ids (sequential, negative, 1, MaxInt32) x request timeouts {0,3 s,60 s}; with pool 1: three requests (one per version) whose 50 ms timeout elapses behind a gated handler; with a handle timeout: gated over-long handlers per version and one-way. A case is one request; distinct = distinct (configuration, version, kind, one-way).")
 	run.Assume("the TUP reply layout (RequestPacket-shaped) carries no return code, so codes/messages are judged for TARS and JSON requests")
 	var cfgs []srvCfg
 	for _, p := range []string{"tcp", "udp"} {
